@@ -227,7 +227,7 @@ def run_path(topo, up, mode, origins, sizes, nsess, per, sid0):
          ("domain", "localhost", origins[1].port)]      # the same name on two ports within one session
     # a session that starts with a burst: its first datagrams are all on the listener's socket before the session exists
     burst = Session(sid0 + nsess, topo, up, mode)
-    for seq in range(8):
+    for seq in range(30):          # more than any per-session queue of the proxy holds (10 slots on the QUIC datagram path)
         burst.send(seq, dsts[seq % len(dsts)], 100 + seq)
     sessions.append(burst)
     time.sleep(0.3)
